@@ -7,9 +7,11 @@ import (
 	"strings"
 	"time"
 
-	"github.com/NethermindEth/juno/migration/blocktransactions"
-
+	"github.com/NethermindEth/juno/core"
+	"github.com/NethermindEth/juno/db"
 	"github.com/NethermindEth/juno/db/memory"
+	"github.com/NethermindEth/juno/migration/blocktransactions"
+	"github.com/NethermindEth/juno/pruner"
 	"verif/harness/lib"
 )
 
@@ -133,9 +135,88 @@ func (h *harness) blockTxAll() {
 			}
 		}
 	}
+	h.blockTxPrunedCurrentLayout()
 	n := h.f.Scale(40, 600)
 	for i := 0; i < n; i++ {
 		h.blockTxHistory(h.genSpec(h.r.Fork(uint64(i))), h.f.Scale(14, 40))
+	}
+}
+
+// blockTxPrunedCurrentLayout: a database that is already in the current layout, whose prefix the running
+// pruner has removed (pruner.PruneBlockDataUpto: commitments, state updates, combined entries below P,
+// headers below P - 10) and whose block-transactions bit is not set (written by a binary older than the schema
+// runner). Migrate finds no old entries and goes straight to its final step: the empty-block back-fill starts
+// at the oldest retained block (check_status.go backfillEmptyBlocks / pruner.OldestRetainedBlock). It must
+// complete, give every RETAINED empty block that has no entry its empty entry, and leave everything below
+// the retained range alone (no entry resurrected, no failure on the missing headers). The Lean model has
+// no pruned prefix (assumption in checks/c18.json): oracle on the real code only.
+func (h *harness) blockTxPrunedCurrentLayout() {
+	const blocks = 32
+	counts := make([]int, blocks)
+	layout := make([]byte, blocks)
+	for b := range counts {
+		switch {
+		case b%4 == 1 || (b >= 20 && b < 30):
+			counts[b], layout[b] = 0, '-' // an empty block that never got an entry
+		case b%4 == 3:
+			counts[b], layout[b] = 0, 'n' // an empty block with its (empty) entry
+		default:
+			counts[b], layout[b] = 1+b%2, 'n'
+		}
+	}
+	c := chainSpec{Seed: 23, Counts: counts, Layout: string(layout)}
+	for _, p := range []uint64{0, 1, 9, 10, 11, 21, 30, 31} {
+		fs := fullSpec{Chain: c}
+		d, err := fs.build()
+		if err != nil {
+			h.res.Fatalf("fixture does not build: %v", err)
+			return
+		}
+		if p > 0 {
+			if err := pruner.PruneBlockDataUpto(d, p); err != nil {
+				h.res.Fatalf("pruning the fixture: %v", err)
+				return
+			}
+		}
+		pre := dump(d)
+		rp := map[string]any{"spec": c, "prunedUpto": p, "what": "build (current layout), pruner.PruneBlockDataUpto, run blocktransactions.Migrate"}
+		o := runBlockTx(d, btPlan{}, false)
+		h.res.Case(fmt.Sprintf("bt-pruned-current-layout|%d", p), true)
+		h.res.Hit("bt-pruned-current-layout:" + o.ret)
+		if o.ret != "done" {
+			h.res.Violate(lib.Violation{Sig: "blocktx-fails-on-pruned-database", What: fmt.Sprintf("pruned up to %d: %s %s", p, o.ret, o.errText), Replay: rp})
+			continue
+		}
+		post := dump(o.final)
+		for b := uint64(0); b < blocks; b++ {
+			has, _ := core.BlockTransactionsBucket.Has(o.final, b)
+			if b < p {
+				if has {
+					h.res.Violate(lib.Violation{Sig: "blocktx-resurrects-pruned-block", What: fmt.Sprintf("pruned up to %d: block %d has a combined entry after the migration", p, b), Replay: rp})
+					break
+				}
+				continue
+			}
+			if !sameView(readBlockCurrent(o.final, c, b), c.expectedView(b)) {
+				h.res.Violate(lib.Violation{Sig: "blocktx-retained-block-unreadable-on-pruned-database",
+					What: fmt.Sprintf("pruned up to %d: retained block %d (%d transactions) does not read as its original", p, b, counts[b]), Replay: rp})
+				break
+			}
+		}
+		// nothing that was there may change; only combined entries of retained blocks may appear
+		btPrefix := string(db.BlockTransactions.Key())
+		for k, v := range pre {
+			if post[k] != v {
+				h.res.Violate(lib.Violation{Sig: "blocktx-changes-pruned-database", What: fmt.Sprintf("pruned up to %d: key %x changed or vanished", p, k), Replay: rp})
+				break
+			}
+		}
+		for k := range post {
+			if _, was := pre[k]; !was && !strings.HasPrefix(k, btPrefix) {
+				h.res.Violate(lib.Violation{Sig: "blocktx-changes-pruned-database", What: fmt.Sprintf("pruned up to %d: new key %x", p, k), Replay: rp})
+				break
+			}
+		}
 	}
 }
 
